@@ -61,6 +61,11 @@ def families():
     out.append(Fam("asymmetric_depolarize", f"{F}:AsymmetricDepolarizingChannel", ["a", "b", "c"], [sa, ca, sa * cb, sa * sb * cc, sa * sb * sc],
                    lambda: cirq.asymmetric_depolarize(px, py, pz),
                    lambda: [_scale(I2, ca), _scale(X, sa * cb), _scale(Y, sa * sb * cc), _scale(Z, sa * sb * sc)]))
+    out.append(Fam("asymmetric_depolarize(error_probabilities={Z: p})", f"{F}:AsymmetricDepolarizingChannel", ["t"], [s, c],
+                   lambda: cirq.asymmetric_depolarize(error_probabilities={"Z": s * s}), lambda: [_scale(I2, c), _scale(Z, s)]))
+    out.append(Fam("asymmetric_depolarize(error_probabilities={Y: px, X: py}) [unsorted keys, implied identity]", f"{F}:AsymmetricDepolarizingChannel", ["a", "b"], [sa, ca, sa * cb, sa * sb],
+                   lambda: cirq.asymmetric_depolarize(error_probabilities={"Y": (sa * cb) * (sa * cb), "X": (sa * sb) * (sa * sb)}),
+                   lambda: [_scale(I2, ca), _scale(Y, sa * cb), _scale(X, sa * sb)]))
     out.append(Fam("amplitude_damp", f"{F}:AmplitudeDampingChannel", ["g"], [sg, cg], lambda: cirq.amplitude_damp(sg * sg),
                    lambda: [O([[1, 0], [0, cg]]), O([[0, sg], [0, 0]])]))
     out.append(Fam("generalized_amplitude_damp", f"{F}:GeneralizedAmplitudeDampingChannel", ["t", "g"], [s, c, sg, cg],
@@ -146,10 +151,17 @@ def tensors_equal(A, B):
     return True, ""
 
 
+class _ProbCtx(_Generic):
+    """generic outcomes for tests on probabilities: strictly inside the simplex (sum of the listed probabilities < 1 - tol)"""
+
+    def decide_poly_order(self, a, b, opname):
+        return opname in ("lt", "le")
+
+
 def _ob(name, fn, roots, case=None):
     t0 = time.time()
     trigpoly.UNIT_ROOTS[:] = roots
-    trigpoly.CTX = _Generic()
+    trigpoly.CTX = _ProbCtx()
     try:
         ok, detail = fn()
         st = "proved" if ok else "failed"
